@@ -5,7 +5,7 @@ VERIF_REPO=<worktree> ./check --all (must report no VIOLATION / CHECKER-ERROR)."
 import os, re, subprocess, sys, shutil, tempfile
 HERE = os.path.dirname(os.path.dirname(os.path.abspath(__file__)))
 D = os.path.join(HERE, "selftest", "refactors")
-wt = "/tmp/wt-refactor-run"
+wt = "/tmp/wt-refactor-run" + os.environ.get("REFACTOR_WT", "")
 if not os.path.isdir(wt):
     subprocess.check_call(["git", "-C", "/repo", "worktree", "add", "--detach", wt, "HEAD"], stdout=subprocess.DEVNULL, stderr=subprocess.DEVNULL)
 head = subprocess.check_output(["git", "-C", "/repo", "rev-parse", "HEAD"], text=True).strip()
